@@ -19,6 +19,7 @@ fn factory(model: &str) -> Option<Factory> {
         "join" => Box::new(|c: &Value| Box::new(models::join::JN::new(c)) as Box<dyn Model>),
         "backward" => Box::new(|c: &Value| Box::new(models::backward::BW::new(c)) as Box<dyn Model>),
         "parallel" => Box::new(|c: &Value| Box::new(models::parallel::PX::new(c)) as Box<dyn Model>),
+        "grl" => Box::new(|c: &Value| Box::new(models::grl::GP::new(c)) as Box<dyn Model>),
         _ => return None,
     })
 }
@@ -59,6 +60,7 @@ fn main() {
         Some("reterec") => models::rete::cmd_reterec(&args),
         Some("bwrec") => models::backward::cmd_bwrec(&args),
         Some("fwdrec") => models::forward::cmd_fwdrec(&args),
+        Some("grlprobe") => models::grl::cmd_grlprobe(&args),
         Some("kbstress") => models::kb::cmd_stress(&args),
         _ => {
             eprintln!("usage: vh replay|replay-one <model> <file> [opts]");
